@@ -327,6 +327,119 @@ func genC10() {
 		}
 		b.WriteString(leanStr(c))
 	}
+	b.WriteString("]\n\n")
+
+	// doNonNilReqResp: the disjuncts of the close-or-release decision `shouldCloseConn = a || b || …`
+	// (the last assignment to shouldCloseConn whose right-hand side is not a literal)
+	fd = findFunc(fh, "HostClient", "doNonNilReqResp")
+	var disj []string
+	ast.Inspect(fd.Body, func(n ast.Node) bool {
+		as, ok := n.(*ast.AssignStmt)
+		if !ok || len(as.Lhs) != 1 || len(as.Rhs) != 1 || src(fset, as.Lhs[0]) != "shouldCloseConn" {
+			return true
+		}
+		if id, ok := as.Rhs[0].(*ast.Ident); ok && (id.Name == "false" || id.Name == "true") {
+			return true
+		}
+		disj = nil
+		var rec func(e ast.Expr)
+		rec = func(e ast.Expr) {
+			if x, ok := e.(*ast.BinaryExpr); ok && x.Op == token.LOR {
+				rec(x.X)
+				rec(x.Y)
+				return
+			}
+			disj = append(disj, src(fset, e))
+		}
+		rec(as.Rhs[0])
+		return true
+	})
+	b.WriteString("/-- disjuncts of `shouldCloseConn = …` in doNonNilReqResp -/\n")
+	b.WriteString("def closeDecision : List String := [")
+	for i, c := range disj {
+		if i > 0 {
+			b.WriteString(", ")
+		}
+		b.WriteString(leanStr(c))
+	}
+	b.WriteString("]\n\n")
+
+	// doNonNilReqResp: the statements that retire a connection older than MaxConnDuration
+	// (condition of the `if` that sets resetConnection, and its body)
+	var retire []string
+	ast.Inspect(fd.Body, func(n ast.Node) bool {
+		is, ok := n.(*ast.IfStmt)
+		if !ok {
+			return true
+		}
+		for _, st := range is.Body.List {
+			if as, ok := st.(*ast.AssignStmt); ok && len(as.Lhs) == 1 && src(fset, as.Lhs[0]) == "resetConnection" {
+				retire = append(retire, src(fset, is.Cond))
+				for _, st2 := range is.Body.List {
+					retire = append(retire, src(fset, st2))
+				}
+				return false
+			}
+		}
+		return true
+	})
+	b.WriteString("/-- the `if` that retires an old connection: condition, then the statements of its body -/\n")
+	b.WriteString("def retireOldConn : List String := [")
+	for i, c := range retire {
+		if i > 0 {
+			b.WriteString(", ")
+		}
+		b.WriteString(leanStr(c))
+	}
+	b.WriteString("]\n\n")
+
+	// HostClient.ShouldRemove: its statements, as source text
+	fd = findFunc(fh, "HostClient", "ShouldRemove")
+	var sr []string
+	if fd == nil {
+		sr = append(sr, "UNTRANSLATED ShouldRemove not found")
+	} else {
+		for _, st := range fd.Body.List {
+			sr = append(sr, src(fset, st))
+		}
+	}
+	b.WriteString("/-- the statements of HostClient.ShouldRemove -/\n")
+	b.WriteString("def shouldRemoveBody : List String := [")
+	for i, c := range sr {
+		if i > 0 {
+			b.WriteString(", ")
+		}
+		b.WriteString(leanStr(c))
+	}
+	b.WriteString("]\n\n")
+
+	// Client.cleanHostClients: the condition under which a map entry is deleted
+	_, _ = fset, fh
+	fsetc, fcli := parseFile("pkg/app/client/client.go")
+	fd = findFunc(fcli, "Client", "cleanHostClients")
+	var del []string
+	if fd == nil {
+		del = append(del, "UNTRANSLATED cleanHostClients not found")
+	} else {
+		ast.Inspect(fd.Body, func(n ast.Node) bool {
+			is, ok := n.(*ast.IfStmt)
+			if !ok || len(is.Body.List) == 0 {
+				return true
+			}
+			if es, ok := is.Body.List[0].(*ast.ExprStmt); ok && strings.HasPrefix(src(fsetc, es.X), "delete(") {
+				del = append(del, src(fsetc, is.Cond), src(fsetc, es.X))
+			}
+			return true
+		})
+	}
+	b.WriteString("/-- cleanHostClients: condition of the `if` whose body starts with delete(…), and that delete -/\n")
+	b.WriteString("def janitorDelete : List String := [")
+	for i, c := range del {
+		if i > 0 {
+			b.WriteString(", ")
+		}
+		b.WriteString(leanStr(c))
+	}
 	b.WriteString("]\n\nend Hertz.Gen.Client\n")
 	write("ClientPaths.lean", b.String())
 }
